@@ -2,6 +2,7 @@ import LyModel.Props.C13
 import LyModel.Props.C13Merge
 #print axioms LyModel.Props.C13.reverse_apply_partial
 #print axioms LyModel.Props.C13.reverse_apply_diff_partial
+#print axioms LyModel.Props.C13.reverse_involutive
 #print axioms LyModel.Props.C13.reverse_apply_userord_fails
 #print axioms LyModel.Props.C13.reverse_apply_userord_delete_fails
 #print axioms LyModel.Props.C13.merge_apply_nodefaults_fails
